@@ -171,6 +171,13 @@ func (s *Server) Exit(ctx context.Context) error {
 
 func (s *Server) DidOpen(ctx context.Context, params *protocol.DidOpenTextDocumentParams) error {
 	s.documents.Store(params.TextDocument.URI, params.TextDocument.Text)
+	// the opened buffer may differ from the file on disk (unsaved text restored by the editor)
+	if path := uriToPath(params.TextDocument.URI); path != "" {
+		if s.workspace != nil {
+			s.workspace.UpdateFile(path, params.TextDocument.Text)
+		}
+		s.loader.InvalidateFile(path)
+	}
 	go s.publishDiagnostics(ctx, params.TextDocument.URI, params.TextDocument.Text)
 	return nil
 }
